@@ -9,7 +9,7 @@ EXTENDS Naturals, TLC
 Containers == {"if", "else", "elif", "for", "forelse", "while", "try", "except", "tryelse", "finally", "with",
                "asyncwith", "asyncfor", "match"}
 Stmts == {"return", "returnval", "raise", "yield", "yieldfrom", "await", "def", "asyncdef", "class", "import", "from",
-          "lambda", "docstring", "decorated"}
+          "lambda", "docstring", "decorated", "wordsintext"}
 Funcs == {"def", "asyncdef", "method"}
 VARIABLES f, c1, c2, s
 Init == f \in Funcs /\ c1 \in Containers /\ c2 \in Containers \cup {"none"} /\ s \in Stmts
